@@ -271,10 +271,9 @@ func (ka *ecdheKeyAgreementGM) generateClientKeyExchange(config *Config, clientH
 		serialized = ourPublic[:]
 		preMasterSecret = sharedKey[:]
 	} else {
-		curve, ok := curveForCurveID(ka.curveid)
-		if !ok {
-			panic("internal error")
-		}
+		// processServerKeyExchange parsed and validated the server's point on the
+		// SM2 curve, whichever curve the message names: use it on that curve.
+		curve := sm2.P256Sm2()
 		priv, mx, my, err := elliptic.GenerateKey(curve, config.rand())
 		if err != nil {
 			return nil, nil, err
